@@ -583,9 +583,11 @@ func TestC19Store(t *testing.T) {
 					for _, id := range append([]string{"zz", "changed"}, idPool...) {
 						var first *colItem
 
-						for _, it := range model.items {
+						firstAt := -1
+
+						for k, it := range model.items {
 							if it.id == id {
-								first = it
+								first, firstAt = it, k
 								break
 							}
 						}
@@ -599,6 +601,14 @@ func TestC19Store(t *testing.T) {
 
 						if first != nil && got.Get("id") != id {
 							fail("Resource(%q) returned the resource %q", id, got.Get("id"))
+						}
+
+						// ... the first one with that ID: what At gives for
+						// its position.
+						if first != nil {
+							if a, b := oracle.SnapshotResource(got, false), oracle.SnapshotResource(col.At(firstAt), false); a != b {
+								fail("Resource(%q) is not the first element with that ID (position %d)\nResource: %s\nAt(%d):   %s", id, firstAt, a, firstAt, b)
+							}
 						}
 					}
 				}
